@@ -54,9 +54,14 @@ Proof.
   - eexists. vm_compute. reflexivity.
   - vm_compute. discriminate.
   - vm_compute. discriminate.
-  - vm_compute. discriminate.
   - cbn [ftags]. constructor; [intros [H|[]]; discriminate|]. constructor; [intros []|constructor].
 Qed.
+
+(* ... and so is a rest that carries an octave, a per-note mode and an accidental (r.oabs(1).m.dim): it prints them and reads back *)
+Example C05_ex_rest :
+  let n := mkF KR Abs 0 1 (1 # 2) (Some MMin) (Some ADim) (66 # 1) [] in
+  ntext_str (note_text n) = "r.e.oabs(1).m.dim"%string /\ option_map (same_note n) (eval_note (note_text n)) = Some true.
+Proof. split; vm_compute; reflexivity. Qed.
 
 Example C05_ex_chord :
   let c := mkFC (mkC 4 (mkE "65" ["sus4"]%string ["add9"]%string []) (mkT 1 MMin 1) 2)
